@@ -77,6 +77,8 @@ def run(ses, protos=None):
     protos = protos or PROTOS
     jobs = [(job_roundtrip, (p, f, a)) for p in protos for f, a in variants(p, ses.tier)]
     jobs += upper.roundtrip_jobs(protos, ses.tier)
+    from .. import coreapi
+    jobs.append((coreapi.job_core_api, ()))        # newtype constructors, builder(), setters, Clone: what the caller writes reaches the entry point unchanged
     run_jobs(ses, jobs)
     ses.trusted_base = TRUSTED
     ses.assumptions = ['key is 32 bytes, nonce seed has the length the PasetoNonce constructors produce (32; 24 or 32 for v2)',
@@ -93,4 +95,4 @@ def confirm(ses, v):
 def replay(path):
     from .. import replay as rp
     return rp.replay_file(path)
-BASELINE = ['core_builder_reuse']
+BASELINE = ['core_api', 'core_builder_reuse']
